@@ -25,9 +25,10 @@ def units(tier):
 
 
 def bounded(tier, seed):
-    from pyvc.native_bridge import bounded_harness
+    from pyvc.native_bridge import bounded_harness, bounded_paint
     return [bounded_harness(tier, "C07,C01", "paint-strokes", "paint/erase strokes, node/edge edits, undo/redo on small label videos; oracles: labels<->nodes, "
-                            "array exactly as painted, undo restores bit for bit", seed, focus="paint,undo", segonly=True)]
+                            "array exactly as painted, undo restores bit for bit", seed, focus="paint,undo", segonly=True),
+            bounded_paint(tier, "C07,C01", "labels<->nodes and array exactly as painted after the stroke; undo restores bit for bit, redo re-applies")]
 
 
 def witness(label, failure, seed):
